@@ -77,6 +77,9 @@ FIXED += [
     ("C20", "0a88cff", "hg / docker pattern lists accumulated from one search root to the next: a root nested in another context was also judged by the outer context's file, depending on root order (audit agent; C20's several-roots cases now nest contexts)", []),
     ("C20", "643caf9", "hgignore glob `build/` (trailing slash) ignored nothing (audit agent; `dir/` patterns are now generated for hg too)", []),
     ("C20", "7d874b3", "dockerignore turned every backslash of a path into a slash on Unix: pattern `x` ignored `x\\y.txt`, and below a directory with a backslash in its name no rule applied (audit agent; backslash names are in C20's vocabulary)", []),
+    ("C15", "c5fe120", "expression texts (the keys of the per-row value map) wrote text literals bare: `length('Size')` / `length(size)`, `concat('a, b')` / `concat('a', 'b')`, `length(upper('x'))` / `length('Upper(x)')` shared a key and the first one decided both values (audit agents C15/C16; C15 now runs confusable pairs)", []),
+    ("C10", "f5d65fe", "`width` / `height` on a directory, dangling link, unreadable or non-UTF-8 file called *.svg panicked (unwrap of svg::open) (audit agents C10/C17; C10's tree now has such entries)", []),
+    ("C10", "eddf26a", "2500 nested brackets or 3000 nested function calls (a 5 KB argument) overflowed the stack: SIGABRT (audit agent; enumerated in C10)", []),
     ("C10", "9b6a0a7", "day('2020-0\u0661-01'): the date pattern matched non-ASCII digits and the integer parse of the capture was unwrapped (found by the eval_total fuzz target after 2e7 executions)", ["date-non-ascii-digit"]),
     ("C10", "69a0b27", "`name from './[a' depth 1 rx`: a malformed pattern in a regexp search root panicked (unwrap of Regex::new)", ["regexp-root-malformed"]),
 ]
